@@ -207,8 +207,24 @@ fn render_py(p: &Program, ins: &[String], nested: bool, style: u8, indent: &str)
             Op::Log(a, b) => format!("n{a}.log_base({})", pyf(*b)),
             Op::MulAdd(a, b, c) => format!("n{a}.mul_add(n{b}, n{c})"),
             Op::Neg(a) => format!("(-n{a})"),
-            Op::Bin(b, _, x, y) => format!("(n{x} {} n{y})", ["+", "-", "*", "/"][*b as usize]),
-            Op::BinS(b, _, x, k) => format!("(n{x} {} {})", ["+", "-", "*", "/"][*b as usize], lit(*k, i)),
+            Op::Bin(b, _, x, y) => {
+                let o = ["+", "-", "*", "/"][*b as usize];
+                if (style as usize + i) % 5 == 3 {
+                    // right operand inside a numpy object array of dual numbers (element-wise operator)
+                    format!("(n{x} {o} numpy.array([n{y}, n{x}], dtype=object))[0]")
+                } else {
+                    format!("(n{x} {o} n{y})")
+                }
+            }
+            Op::BinS(b, _, x, k) => {
+                let o = ["+", "-", "*", "/"][*b as usize];
+                if (style as usize + i) % 5 == 4 {
+                    // right operand inside a numpy float array
+                    format!("(n{x} {o} numpy.array([1.5, {}]))[1]", pyf(*k))
+                } else {
+                    format!("(n{x} {o} {})", lit(*k, i))
+                }
+            }
             Op::RBinS(b, x, k) => format!("({} {} n{x})", lit(*k, i), ["+", "-", "*", "/"][*b as usize]),
             Op::Atan2(..) | Op::Sum(_) | Op::Product(_) | Op::Inv(_) => "UNSUPPORTED".to_string(),
         };
@@ -222,6 +238,7 @@ fn render_py(p: &Program, ins: &[String], nested: bool, style: u8, indent: &str)
 
 const HELPER: &str = r#"
 import num_dual
+import numpy
 def fl(o, out):
     if o is None:
         out.append(None)
@@ -317,6 +334,15 @@ fn compare(py: &PyOut, rs: &Outcome, alt: Option<&Outcome>, what: &str, src: &st
     Err(Verdict::Fail { sig: format!("C17/{}/{}", what, why.split(':').next().unwrap_or("")), why: format!("{what}: {why}\n--- python source ---\n{src}") })
 }
 
+thread_local! {
+    /// getters of the last node seen inside the driver callback (value, then every derivative getter)
+    static LAST_GETTERS: RefCell<Vec<Option<f64>>> = const { RefCell::new(Vec::new()) };
+    /// dimensions of the dynamic class used inside the callback
+    static CB_DIMS: std::cell::Cell<(usize, usize)> = const { std::cell::Cell::new((0, 0)) };
+    /// the Python class of the callback has derivative getters (the Dyn classes of hessian / partial_hessian have none)
+    static CB_HAS_GETTERS: std::cell::Cell<bool> = const { std::cell::Cell::new(true) };
+}
+
 /// evaluate the program on T recording the rendering of every non-input node
 fn eval_rec<T: Ty + DualNum<f64>>(prog: &Program, ins: &[T], reprs: &RefCell<Vec<String>>) -> Vec<T> {
     let v = eval_lib::<T, f64>(prog, ins);
@@ -326,6 +352,12 @@ fn eval_rec<T: Ty + DualNum<f64>>(prog: &Program, ins: &[T], reprs: &RefCell<Vec
             r.push(x.to_string());
         }
     }
+    let (d0, d1) = CB_DIMS.with(|c| c.get());
+    let mut g = flat_opts(&v[v.len() - 1], &[d0, d1]);
+    if !CB_HAS_GETTERS.with(|c| c.get()) {
+        g.truncate(1);
+    }
+    LAST_GETTERS.with(|l| *l.borrow_mut() = g);
     v
 }
 
@@ -506,7 +538,7 @@ fn driver(case: &Case, st: &mut Stats) -> Result<bool, Verdict> {
     };
     let ret = if d == 4 { format!("[{}]", prog.outs.iter().map(|o| format!("n{o}")).collect::<Vec<_>>().join(", ")) } else { format!("n{last}") };
     let src = format!(
-        "{HELPER}\ndef run():\n    R = []\n    def f({sig}):\n        C = type({})\n{}        return {ret}\n    res = {call}\n    return R, flat(res)\n",
+        "{HELPER}\ndef run():\n    R = []\n    G = []\n    def f({sig}):\n        C = type({})\n{}        G.extend(flat(n{last}))\n        return {ret}\n    res = {call}\n    return R, flat(res) + [None, None] + G\n",
         ins[0],
         render_py(&prog, &ins, false, case.style, "        ")
     );
@@ -524,11 +556,14 @@ fn driver(case: &Case, st: &mut Stats) -> Result<bool, Verdict> {
         Err(e) => return Err(Verdict::Fail { sig: format!("C17/{name}/python-exception"), why: format!("{name}: {e}\n--- python source ---\n{src}") }),
     };
     let has_rdiv = prog.ops.iter().any(|o| matches!(o, Op::RBinS(Bin::Div, ..)));
+    // class used inside the callback: dimensions for the dynamic classes, and whether it has getters
+    CB_DIMS.with(|c| c.set(if d == 7 { (nx, ny) } else { (nvar, nvar) }));
+    CB_HAS_GETTERS.with(|c| c.set(!((d == 5 && nvar > 10) || (d == 7 && !(nx <= 5 && ny <= 5)))));
     let run = |alt: bool| -> Outcome {
         RDIV_ALT.with(|c| c.set(alt));
         let reprs = RefCell::new(vec![]);
         let out = prog.outs[0];
-        let vals: Vec<Option<f64>> = match d {
+        let mut vals: Vec<Option<f64>> = match d {
             0 => {
                 let r = first_derivative(|v: Dual64| eval_rec::<Dual64>(&prog, &[v], &reprs)[out], x[0]);
                 vec![Some(r.0), Some(r.1)]
@@ -583,6 +618,10 @@ fn driver(case: &Case, st: &mut Stats) -> Result<bool, Verdict> {
             }
         };
         RDIV_ALT.with(|c| c.set(false));
+        // separator + the getters of the last node inside the callback
+        vals.push(None);
+        vals.push(None);
+        vals.extend(LAST_GETTERS.with(|l| l.borrow().clone()));
         Outcome { reprs: reprs.into_inner(), vals }
     };
     let main = run(false);
@@ -656,10 +695,10 @@ impl Property for C17 {
         }
     }
     fn rule() -> String {
-        "generated (by proptest, in Rust): a program of 2..10 (thorough: 24) nodes and either one of the 8 scalar Python classes (Dual64, Dual2_64, Dual3_64, HyperDual64, HyperHyperDual64, Dual2Dual64, Dual3Dual64, HyperDualDual64) with arbitrary constructor parts, or one of the 10 driver functions with 1..12 variables (fixed-size classes up to 10 / (5,5), dynamic classes beyond, jacobian beyond 10 must raise TypeError), 1..4 outputs, generated index triples. The program is rendered to PYTHON SOURCE (methods, `+ - * /` with dual, float and int operands on either side, `**` with int, float and dual exponents, neg, sin_cos, log_base, mul_add, sph_j0/1/2, from_re constants) and executed in an embedded CPython 3.11 against the built-in module num_dual::python::num_dual; the same program is evaluated by the generic Rust interpreter on the corresponding Rust type / Rust driver. Oracle: bit-for-bit equality of every float that comes back through the getters / driver tuples (None for absent parts) and string equality of repr() of EVERY node with Rust's to_string(); the reflected division l / x is accepted as either recip(x) * l (the documented form) or D::from(l) / x. Non-trivial: >= 3 nodes including a reflected operator or a power, or a driver call with >= 2 variables.".into()
+        "generated (by proptest, in Rust): a program of 2..10 (thorough: 24) nodes and either one of the 8 scalar Python classes (Dual64, Dual2_64, Dual3_64, HyperDual64, HyperHyperDual64, Dual2Dual64, Dual3Dual64, HyperDualDual64) with arbitrary constructor parts, or one of the 10 driver functions with 1..12 variables (fixed-size classes up to 10 / (5,5), dynamic classes beyond, jacobian beyond 10 must raise TypeError), 1..4 outputs, generated index triples. The program is rendered to PYTHON SOURCE (methods, `+ - * /` with dual, float and int operands on either side and with numpy float / object arrays on the right, `**` with int, float and dual exponents, neg, sin_cos, log_base, mul_add, sph_j0/1/2, from_re constants) and executed in an embedded CPython 3.11 against the built-in module num_dual::python::num_dual; the same program is evaluated by the generic Rust interpreter on the corresponding Rust type / Rust driver. Oracle: bit-for-bit equality of every float that comes back through the getters / driver tuples (None for absent parts) and string equality of repr() of EVERY node with Rust's to_string(); the reflected division l / x is accepted as either recip(x) * l (the documented form) or D::from(l) / x. Non-trivial: >= 3 nodes including a reflected operator or a power, or a driver call with >= 2 variables.".into()
     }
     fn assumptions() -> Vec<String> {
-        vec!["numpy-array operands of the operators are not exercised".into(), "CPython 3.11 shared library and numpy of the tooling venv are part of the image".into()]
+        vec!["CPython 3.11 shared library and numpy of the tooling venv are part of the image".into()]
     }
 }
 
